@@ -35,6 +35,7 @@ import (
 	"context"
 	"errors"
 	"fmt"
+	"os"
 	"reflect"
 	"sort"
 	"strings"
@@ -99,6 +100,10 @@ const (
 	dsSubsOK  = 0
 	dsSubsErr = 1
 )
+
+// dsDumpTrace (DS_DUMP=1) prints the whole trace of every run: debugging aid
+// for determinism divergences, never set by the driver.
+var dsDumpTrace = os.Getenv("DS_DUMP") != ""
 
 var (
 	errDsNet      = errors.New("sim: owner push transport failure")
@@ -330,8 +335,6 @@ type dsNode struct {
 	acceptedTotal int
 	results       map[rd.ObservationResult]int
 	genRelax      bool
-	depth         int
-	running       int
 }
 
 type dsChan struct {
@@ -390,11 +393,7 @@ type dsObserver struct {
 
 func (o *dsObserver) ObservePlanAdmission(rd.PlanAdmissionEvent) {}
 func (o *dsObserver) ObserveOwnerPush(rd.OwnerPushEvent)         {}
-func (o *dsObserver) SetRuntimePressure(ev rd.RuntimePressureEvent) {
-	o.w.mu.Lock()
-	o.n.depth, o.n.running = ev.QueueDepth, ev.Inflight
-	o.w.mu.Unlock()
-}
+func (o *dsObserver) SetRuntimePressure(rd.RuntimePressureEvent) {}
 func (o *dsObserver) ObservePlanTerminal(event rd.PlanTerminalEvent) {
 	o.w.mu.Lock()
 	o.n.terminals++
@@ -563,7 +562,7 @@ func (e *dsEnqueuer) EnqueueRecipientDeliveryPlan(ctx context.Context, plan onli
 	case dsEnqGo:
 	case dsEnqShort:
 		var cancel context.CancelFunc
-		ectx, cancel = context.WithTimeout(ctx, 2*time.Millisecond)
+		ectx, cancel = context.WithTimeout(ctx, 2*time.Millisecond+time.Duration(501+m.idx*16+p.ord))
 		defer cancel()
 	default:
 		err := ctx.Err()
@@ -888,6 +887,11 @@ func runDeliverSim(t *testing.T, r *simkit.Run) {
 			nf += v
 		}
 		r.Nontrivial = w.accepted > 0 && (nf > 0 || w.overlap || w.split)
+		if dsDumpTrace {
+			for _, l := range r.Trace() {
+				fmt.Println(l)
+			}
+		}
 	})
 }
 
@@ -898,8 +902,11 @@ func (w *dsWorld) build() {
 		n := &dsNode{id: uint64(i), results: map[rd.ObservationResult]int{}}
 		opts := rd.RuntimeOptions{
 			LocalNodeID: n.id, Presence: &dsPresence{w, n}, RemoteOwnerPusher: &dsRemote{w, n}, SessionWriter: &dsWriter{w, n},
-			QueueSize: c.Queue, Workers: c.Workers, PlanTimeout: c.PlanTO, OwnerPushBatchSize: c.OwnerBatch, OwnerConcurrency: c.OwnerConc,
-			RetryMaxAttempts: c.RetryMax, RetryInitialBackoff: time.Millisecond, RetryMaxBackoff: 4 * time.Millisecond,
+			// durations carry odd nanosecond offsets so that no two timers of the
+			// world fall on the same fake instant (a tie is resolved by the Go
+			// runtime, not by the tape)
+			QueueSize: c.Queue, Workers: c.Workers, PlanTimeout: c.PlanTO + 777, OwnerPushBatchSize: c.OwnerBatch, OwnerConcurrency: c.OwnerConc,
+			RetryMaxAttempts: c.RetryMax, RetryInitialBackoff: time.Millisecond + 3, RetryMaxBackoff: 4*time.Millisecond + 13,
 			PendingAckTTL: c.AckTTL, Observer: &dsObserver{w, n}, Goroutines: goruntimeregistry.New(),
 		}
 		if c.OfflineObs {
@@ -1045,6 +1052,7 @@ func (w *dsWorld) newMessage(ch *dsChan, faults bool) *dsMsg {
 func (w *dsWorld) startOp(op *dsOp, run func() error) {
 	w.nextOp++
 	op.id = w.nextOp
+	op.timeout += time.Duration(op.id*37 + 11) // unique sub-microsecond skew per operation deadline
 	w.inflight[op.id] = op
 	go func() {
 		op.err = run()
@@ -1078,8 +1086,9 @@ func (w *dsWorld) startDispatch(ch *dsChan, m *dsMsg) {
 	ev := m.ev
 	raw := append([]Recipient(nil), m.raw...)
 	target := AuthorityTarget{ChannelID: ChannelID{ID: ev.ChannelID, Type: ev.ChannelType}, LeaderNodeID: n.id, Epoch: 1, LeaderEpoch: 1, SubscriberMutationVersion: uint64(m.idx + 1)}
-	w.startOp(&dsOp{kind: "dispatch", node: n, msg: m, timeout: 10 * time.Second}, func() error {
-		ctx, cancel := context.WithTimeout(context.Background(), 10*time.Second)
+	op := &dsOp{kind: "dispatch", node: n, msg: m, timeout: 10 * time.Second}
+	w.startOp(op, func() error {
+		ctx, cancel := context.WithTimeout(context.Background(), op.timeout)
 		defer cancel()
 		switch m.entry {
 		case 0:
@@ -1105,7 +1114,7 @@ func (w *dsWorld) startLife(n *dsNode, kind string, timeout time.Duration) {
 	}
 	rt := n.rt
 	w.startOp(op, func() error {
-		ctx, cancel := context.WithTimeout(context.Background(), timeout)
+		ctx, cancel := context.WithTimeout(context.Background(), op.timeout)
 		defer cancel()
 		if kind == "stop" {
 			return rt.Stop(ctx)
@@ -1245,7 +1254,18 @@ func (w *dsWorld) sync() {
 		st := []any{}
 		for _, id := range w.nodeIDs {
 			n := w.nodes[id]
-			st = append(st, n.state, n.depth, n.running)
+			queued, active := 0, 0
+			for _, p := range plans {
+				if p.src != id || p.enq != 2 || p.ended {
+					continue
+				}
+				if p.presCalls == 0 {
+					queued++
+				} else {
+					active++
+				}
+			}
+			st = append(st, n.state, queued, active)
 		}
 		kinds := map[string]int{}
 		for _, pk := range pend {
